@@ -155,7 +155,7 @@ def lean_pipeline(pid: str, thorough: bool = False) -> dict:
             raise InfraError(f"{props} missing")
         ths = theorems_in(props)
         extra = EXTRA_MODULES.get(pid, [])
-        bridges: list[str] = []
+        bridges: list[str] = list(_bridge_mods(props))
         import bridge as _bridge
         for m in extra:
             f = LEAN / "SppModel" / "Props" / (m.replace(".", "/") + ".lean")
@@ -230,6 +230,11 @@ def lean_pipeline(pid: str, thorough: bool = False) -> dict:
     res["theorems"] = [n for n, _, _ in ths]
     res["wall_s"] = time.time() - t0
     return res
+
+
+def _bridge_mods(path: Path) -> list[str]:
+    import bridge as _bridge
+    return _bridge.bridges_for(path.read_text())
 
 
 def nearest_decl(path: Path, line: int) -> str:
